@@ -221,3 +221,229 @@ func RunC09I(r *sim.Run) {
 	r.Nontrivial = admitted > 0 && sc.Yields > 20
 	r.Sample = map[string]interface{}{"local": local, "global": global, "answers": nAns, "changes": nChg, "requests": nReq}
 }
+
+// RunC09ITB: the count-strategy token-bucket wrapper of one schema with its
+// three callers interleaved at statement level, as RunC09I does for the
+// max-in-flight wrapper. Admissions carry fake-clock stamps; every window of
+// admissions is bounded by the loosest limits that were in force at some
+// moment of it (one fresh burst per change inside the window): qps*T + burst.
+func RunC09ITB(r *sim.Run) {
+	t := r.T
+	start := time.Now()
+	now := func() time.Duration { return time.Since(start) }
+	drawLimits := func() (int32, int32) {
+		l := int32([]int{1, 2, 5, 10, 20}[t.Draw(5)])
+		g := l * int32(t.Range(1, 10))
+		return l, g
+	}
+	local, global := drawLimits()
+	schema := func(l, g int32) proxyv1alpha1.FlowControlSchema {
+		s := proxyv1alpha1.FlowControlSchema{Name: "s", Strategy: proxyv1alpha1.GlobalCountLimit}
+		s.TokenBucket = &proxyv1alpha1.TokenBucketFlowControlSchema{QPS: l, Burst: l}
+		s.GlobalTokenBucket = &proxyv1alpha1.TokenBucketFlowControlSchema{QPS: g, Burst: g}
+		return s
+	}
+	item := func(g int32) proxyv1alpha1.RateLimitItemConfiguration {
+		return proxyv1alpha1.RateLimitItemConfiguration{Name: "s", Strategy: proxyv1alpha1.GlobalCountLimit,
+			LimitItemDetail: proxyv1alpha1.LimitItemDetail{TokenBucket: &proxyv1alpha1.TokenBucketFlowControlSchema{QPS: g, Burst: g}}}
+	}
+	cache := remote.NewFlowControlCache("c1", "s", "gw-1-abcde", nopProvider{})
+	defer cache.Stop()
+	cache.LocalFlowControl().Sync(schema(local, global))
+	cache.EnableRemoteFlowControl()
+	rf := cache.FlowControl()
+	rf.Sync(item(global))
+
+	sc := sim.NewSched(r)
+	sc.Quiesce = synctest.Wait
+	sc.Enabled = func(site string) bool { return strings.HasPrefix(site, "global_flowcontrol.go") }
+	sc.Install()
+	defer sc.Uninstall()
+
+	// order of events: a logical clock (most of a run happens at one fake instant)
+	seq := 0
+	type span struct {
+		from, until int // logical stamps; until < 0: still in force
+		g           int32
+		applied     int // stamp at which the round that applied it had completed (0: initial, -1: in progress)
+	}
+	hist := []*span{{0, -1, global, 0}}
+	type admission struct {
+		at        time.Duration
+		callStart int // logical stamp when its TryAcquire began
+		done      int // ... and when it returned
+	}
+	var adm []admission
+	var reqTime int64 = time.Now().UnixNano()
+	nAns := t.Range(3, 40)
+	type ans struct {
+		kind  int
+		limit int32
+	}
+	anss := make([]ans, nAns)
+	for i := range anss {
+		vals := []int32{1, 5, 50, 1 << 20, 0, -1}
+		anss[i] = ans{kind: t.Pick([]int{1, 8, 1}), limit: vals[t.Draw(len(vals))]}
+	}
+	// the wrapper falls back when an answer is an error and follows the server again
+	// at the next accept: each such flip swaps in another bucket
+	unavail := false
+	var flips [][2]int // logical stamps of the start and the end of the SetLimit call that flipped
+	sc.Go("answers", func() {
+		for _, a := range anss {
+			sc.Boundary()
+			reqTime++
+			switch a.kind {
+			case 0:
+				flip := !unavail
+				unavail = true
+				seq++
+				s0 := seq
+				rf.SetLimit(remote.KgsimAcquireResult("an error on the server", false, 0, reqTime))
+				if flip {
+					seq++
+					flips = append(flips, [2]int{s0, seq})
+				}
+			case 1:
+				flip := unavail
+				unavail = false
+				seq++
+				s0 := seq
+				rf.SetLimit(remote.KgsimAcquireResult("", true, a.limit, reqTime))
+				if flip {
+					seq++
+					flips = append(flips, [2]int{s0, seq})
+				}
+			default:
+				rf.SetLimit(remote.KgsimAcquireResult("", false, a.limit, reqTime))
+			}
+			seq++
+			r.Logf("answer kind=%d limit=%d (stamp %d)", a.kind, a.limit, seq)
+		}
+	})
+	nChg := t.Range(1, 3)
+	type chg struct{ l, g int32 }
+	chgs := make([]chg, nChg)
+	for i := range chgs {
+		chgs[i].l, chgs[i].g = drawLimits()
+	}
+	changes := 0
+	sc.Go("reconcile", func() {
+		for _, c := range chgs {
+			sc.Boundary()
+			seq++
+			nw := &span{seq, -1, c.g, -1}
+			hist = append(hist, nw)
+			cache.LocalFlowControl().Sync(schema(c.l, c.g))
+			rf.Sync(item(c.g))
+			seq++
+			nw.applied = seq
+			for _, h := range hist {
+				if h != nw && h.until < 0 {
+					h.until = seq // the round that applied the change has completed
+				}
+			}
+			changes++
+			r.Logf("limits now local=%d global=%d at %v (stamps %d-%d)", c.l, c.g, now(), nw.from, nw.applied)
+		}
+	})
+	nReq := t.Range(2, 6)
+	refused := 0
+	for i := 0; i < nReq; i++ {
+		i := i
+		rounds := t.Range(2, 12)
+		sc.Go(fmt.Sprintf("req%d", i), func() {
+			for k := 0; k < rounds; k++ {
+				sc.Boundary()
+				seq++
+				cs := seq
+				if rf.TryAcquire() {
+					seq++
+					adm = append(adm, admission{now(), cs, seq})
+					r.Logf("req%d admitted at %v (call began at stamp %d, returned at %d)", i, now(), cs, seq)
+					rf.Release()
+				} else {
+					refused++
+				}
+			}
+		})
+	}
+	for steps := 0; steps < 6000; steps++ {
+		el := sc.Eligible()
+		if len(el) == 0 {
+			alldone := true
+			for _, th := range sc.Threads() {
+				if !th.Done() {
+					alldone = false
+				}
+			}
+			if alldone {
+				break
+			}
+			time.Sleep(350 * time.Millisecond)
+			sc.Settle()
+			continue
+		}
+		sc.Resume(el[t.Draw(len(el))])
+	}
+	for _, th := range sc.Threads() {
+		if th.Panic != nil {
+			r.Violate("panic", th.PanicTop, "thread %s panicked: %v", th.Name, th.Panic)
+			return
+		}
+		if !th.Done() {
+			r.Inconclusive("step budget: " + sc.Describe())
+			return
+		}
+	}
+	r.Checked("token_bucket_rate_bound_under_interleaving")
+	for i := range adm {
+		wStart, wEnd := adm[i].callStart, adm[i].done
+		for j := i; j < len(adm); j++ {
+			// the window in logical time: from the earliest call start to the latest return
+			if adm[j].callStart < wStart {
+				wStart = adm[j].callStart
+			}
+			if adm[j].done > wEnd {
+				wEnd = adm[j].done
+			}
+			var g int32
+			extra := 0
+			for _, h := range hist {
+				if h.from > wEnd || (h.until >= 0 && h.until < wStart) {
+					continue
+				}
+				if h.g > g {
+					g = h.g
+				}
+				// a change whose application overlaps the window swaps the bucket inside it
+				if h.from > 0 && (h.applied < 0 || h.applied >= wStart) {
+					extra++
+				}
+			}
+			T := (adm[j].at - adm[i].at).Seconds()
+			nf := 0
+			for _, f := range flips {
+				if f[1] >= wStart && f[0] <= wEnd {
+					nf++
+				}
+			}
+			strict := float64(g)*float64(1+extra) + float64(g)*T + 1e-6
+			withFlips := strict + float64(g)*float64(nf)
+			if float64(j-i+1) > withFlips {
+				r.Violate("global_rate_exceeded", "tb-count-wrapper-interleaving", "%d requests were admitted within %.3fs (from %v); the loosest global token bucket in force at some moment of that window is qps=burst=%d with %d change(s) of the limits and %d change(s) between failing and answering server inside it: bound %.1f", j-i+1, T, adm[i].at, g, extra, nf, withFlips)
+				return
+			}
+			if float64(j-i+1) > strict {
+				// known finding F-C09-2: every change between "server failing" and "server
+				// answering" swaps in a fresh, full bucket
+				r.Finding("fresh_bucket_per_server_flip", "tb-count-wrapper", "%d requests were admitted within %.3fs under a global token bucket of qps=burst=%d (bound %.1f); the window contains %d change(s) between failing and answering server, each of which handed the instance a fresh bucket", j-i+1, T, g, strict, nf)
+			}
+		}
+	}
+	r.ProbeN("admitted", len(adm))
+	r.ProbeN("refused", refused)
+	r.ProbeN("yields", sc.Yields)
+	r.Nontrivial = len(adm) > 0 && sc.Yields > 20
+	r.Sample = map[string]interface{}{"local": local, "global": global, "answers": nAns, "changes": nChg, "requests": nReq, "admitted": len(adm)}
+}
